@@ -196,16 +196,18 @@ class LangServer:
         self.root_path = path_from_uri(
             params.get("rootUri") or params.get("rootPath") or ""
         )
-        # The root is the default source directory, used only if none is configured
-        if not self.source_dirs:
-            self.source_dirs.add(self.root_path)
-
         self._load_config_file()
+        # The root is the default source directory, used only if none is configured
+        default_source_dirs = not self.source_dirs
+        if default_source_dirs:
+            self.source_dirs.add(self.root_path)
         update_recursion_limit(self.recursion_limit)
         self._resolve_globs_in_paths()
         self._config_logger(request)
         self._load_intrinsics()
-        self._add_source_dirs()
+        # The root configured as a source directory stands for itself only
+        if default_source_dirs:
+            self._add_source_dirs()
         if self._update_version_pypi():
             self.post_message(
                 "Please restart the server for the new version to activate",
